@@ -38,6 +38,10 @@ CORPUS = [
     # characters a printer might use as an internal placeholder or drop: legal inside terms, phrases, regexes
     '"foo\x00bar" AND baz', 'foo\x00bar OR baz', 'f\x00g:a b', '/a\x00b/ c', '"a\x01b" "c\x7fd" e',
     '"\ufffe" OR \uffff', 'a\u200bb AND "c\u200bd"', 'x\x1fy (z\x1e)', '"tab\there" AND a\x0bb',
+    # a boosted / fuzzy group or field longer than the narrow widths, with forces that normalise to an exponent form
+    "(aaaaaaaaaaaaaaaa OR bbbbbbbbbbbbbbbbbbb OR cccccccccccccccc)^10 AND dddddddd",
+    "(aaaaaaaaaaaaaaaa OR bbbbbbbbbbbbbbbbbbb)^0.0000005 eeeeeeee", "f:(aaaaaaaaaaaa bbbbbbbbbbbbbb cccccccccc)^200 OR g",
+    "T12: 30", "sensorT01: 42 AND status:ok", "xT12 : 30 y",
     # reserved words / escapes as terms
     "\\AND b", "a\\ b c", "TO", "a TO b", "&& ||", "a && b",
     " a ", "\ta AND\tb ", "a",
